@@ -167,7 +167,7 @@ def setup():
       super(RecSink, self).__init__()
       self.calls = []
       self.next = None
-      self.script = []           # answers for calls that are dispatched later, in order of arrival
+      self.script = {}           # token object -> answer, for calls that are dispatched later
       self.open_ar = open_ar     # None: Open() completes at once; else the harness completes it (or never does)
 
     @property
@@ -182,7 +182,15 @@ def setup():
 
     def AsyncProcessRequest(self, sink_stack, msg, stream, headers):
       self.calls.append((msg.method, msg.args, msg.kwargs, None))
-      kind, obj = self.script.pop(0) if self.script else (self.next or ('value', None))
+      kind, obj = self.next or ('value', None)
+      if self.script:
+        # calls dispatched later (after Open() completed) may arrive in any order: each carries a token
+        try:
+          vals = list(msg.args) + list(msg.kwargs.values())
+        except Exception:
+          vals = []
+        tok = next((a for a in vals if isinstance(a, _Val) and isinstance(a.i, tuple) and a.i[0] == 'tok'), None)
+        kind, obj = self.script.get(tok, ('error', _Err('call without its token')))
       if kind == 'value':
         sink_stack.AsyncProcessResponseMessage(MethodReturnMessage(obj))
       else:
@@ -726,8 +734,9 @@ def _run_deferred(case, p, rec, open_ar, openmode, pool, deferred, log):
   for oi, op, o in deferred:
     value, err = _Val(('value', oi)), _Err('e%d' % oi)
     d = 'error' if op['disp'] == 'raise' else op['disp']
-    rec.script.append((d, value if d == 'value' else err))
-    args = tuple(pool[i] for i in op['args'])
+    token = _Val(('tok', oi))          # last positional argument: tells the sink which call this is
+    rec.script[token] = (d, value if d == 'value' else err)
+    args = tuple(pool[i] for i in op['args']) + (token,)
     kwargs = dict((k, pool[i]) for k, i in op['kwargs'])
     meth = getattr(p, op['name'])
 
@@ -738,8 +747,8 @@ def _run_deferred(case, p, rec, open_ar, openmode, pool, deferred, log):
         return ('exc', e)
     g = gevent.spawn(blocking)
     gevent.sleep(0)                   # the method runs up to its first blocking point (or to completion)
-    issued.append((oi, op, o, d, value, err, g))
-  o_early = [g.ready() for (_oi, _op, _o, _d, _v, _e, g) in issued]
+    issued.append((oi, op, o, d, value, err, token, g))
+  o_early = [x[-1].ready() for x in issued]
   early_calls = len(rec.calls) - before
   if openmode in ('late', 'late_notimeout'):
     open_ar.set(True)
@@ -748,7 +757,7 @@ def _run_deferred(case, p, rec, open_ar, openmode, pool, deferred, log):
     open_ar.set(True)
   gevent.joinall([x[-1] for x in issued], timeout=8)
   settled = []
-  for k, (oi, op, o, d, value, err, g) in enumerate(issued):
+  for k, (oi, op, o, d, value, err, token, g) in enumerate(issued):
     o['deferred'] = openmode
     o['gets'] = -1
     o['early_dispatch'] = early_calls > 0
@@ -789,14 +798,18 @@ def _run_deferred(case, p, rec, open_ar, openmode, pool, deferred, log):
     else:
       o['ret'] = ['pending-timeout' if pending else 'timeout'] if how == 'timeout' else ['other', ('pending result ' if pending else '') + how]
   new = rec.calls[before:]
-  for k, (oi, op, o, d, value, err, g) in enumerate(issued):
-    if openmode.startswith('late'):
-      # calls reach the sink in the order they were issued (rawlink order); a wrong total shows as the count
-      o['ncalls'] = 1 if len(new) == len(issued) else len(new)
-      if k < len(new):
-        _record(o, pool, new[k])
-    else:
-      o['ncalls'] = len(new)          # 0 expected: a call that timed out waiting for Open() is not part of C20
+  for k, (oi, op, o, d, value, err, token, g) in enumerate(issued):
+    def has(c):
+      try:
+        return any(a is token for a in list(c[1]) + list(c[2].values()))
+      except Exception:
+        return False
+    mine = [c for c in new if has(c)]
+    o['ncalls'] = len(mine)           # never / after_deadline: 0 (a call that timed out waiting for Open() is C01's)
+    if mine:
+      method, a, kw, t = mine[0]
+      a2 = a[:-1] if (type(a) is tuple and a and a[-1] is token) else a      # the token rode as last positional
+      _record(o, pool, (method, a2, kw, t))
     o['own_ran'] = len(log)
 
 
